@@ -114,6 +114,7 @@ type lwAnalysis struct {
 	factorTested map[string]bool // "u.w1" style factors tested in the overflow condition
 	recv, arg types.Object
 	hasPanic bool
+	overflowConds []ast.Expr
 }
 
 func (a *lwAnalysis) errf(pos token.Pos, format string, args ...any) {
@@ -424,6 +425,7 @@ func (a *lwAnalysis) run() {
 			case *ast.IfStmt:
 				if blockDiverges(a.info, x.Body) {
 					a.hasPanic = true
+					a.overflowConds = append(a.overflowConds, x.Cond)
 					ast.Inspect(x.Cond, func(n ast.Node) bool {
 						if id, ok := n.(*ast.Ident); ok {
 							if v, ok := a.env[a.info.ObjectOf(id)]; ok && v.id != 0 {
@@ -628,7 +630,8 @@ func lwArith(c *Ctx, s *Sink, p *packages.Package, ts map[string]*lwType, self *
 				if i+j < N || a.products[[2]int{i, j}] {
 					continue
 				}
-				if a.factorTested[fmt.Sprintf("%s.%d", un, i)] || a.factorTested[fmt.Sprintf("%s.%d", vn, j)] {
+				// the overflow test must fire when u.w_i != 0 and v.w_j != 0 and every other word is zero
+				if a.overflowFires(un, i, vn, j) {
 					continue
 				}
 				lw3Only = append(lw3Only, fmt.Sprintf("w%d*w%d", i, j))
@@ -972,4 +975,41 @@ func lwShift(c *Ctx, s *Sink, p *packages.Package, ts map[string]*lwType, self *
 	} else {
 		s.Pass(nil, key, fd.Pos(), "every result limb may receive bits of exactly the source limbs a shift can move there")
 	}
+}
+
+// overflowFires evaluates the overflow conditions with the atoms
+// "<un>.w_i != 0" and "<vn>.w_j != 0" true and every other "x != 0" false.
+func (a *lwAnalysis) overflowFires(un string, i int, vn string, j int) bool {
+	var ev func(e ast.Expr) (bool, bool)
+	ev = func(e ast.Expr) (bool, bool) {
+		e = ast.Unparen(e)
+		switch x := e.(type) {
+		case *ast.BinaryExpr:
+			switch x.Op {
+			case token.LOR:
+				l, ok1 := ev(x.X)
+				r, ok2 := ev(x.Y)
+				return l || r, ok1 && ok2
+			case token.LAND:
+				l, ok1 := ev(x.X)
+				r, ok2 := ev(x.Y)
+				return l && r, ok1 && ok2
+			case token.NEQ, token.GTR:
+				if !isConstInt(a.info, x.Y, 0) {
+					return false, false
+				}
+				if o, w, ok := a.fieldWeight(x.X); ok && o != nil {
+					return (o.Name() == un && w == i) || (o.Name() == vn && w == j), true
+				}
+				return false, true // a computed word: zero in this scenario
+			}
+		}
+		return false, false
+	}
+	for _, c := range a.overflowConds {
+		if v, ok := ev(c); ok && v {
+			return true
+		}
+	}
+	return false
 }
